@@ -3,6 +3,7 @@ package share
 import (
 	"bytes"
 	"errors"
+	"fmt"
 
 	"github.com/cometbft/cometbft/crypto/merkle"
 	tmbytes "github.com/cometbft/cometbft/libs/bytes"
@@ -114,6 +115,22 @@ func newGetRangeResult(
 
 // Verify verifies inclusion the data in the data root
 func (r *GetRangeResult) Verify(dataRoot []byte) error {
+	if r.Proof == nil {
+		return errors.New("proof is nil")
+	}
+	if len(r.Shares) != len(r.Proof.Data) {
+		return fmt.Errorf("number of shares %d does not match the number of proven shares %d", len(r.Shares), len(r.Proof.Data))
+	}
+	for _, p := range r.Proof.ShareProofs {
+		if p == nil {
+			return errors.New("share proof is nil")
+		}
+	}
+	for _, p := range r.Proof.RowProof.Proofs {
+		if p == nil {
+			return errors.New("row proof is nil")
+		}
+	}
 	rawShares := libshare.ToBytes(r.Shares)
 	for i, shares := range rawShares {
 		if !bytes.Equal(shares, r.Proof.Data[i]) {
